@@ -7,7 +7,7 @@ import operator as _op
 from .absint import (Aff, AffCmp, RegexV, MatchV, V, Const, Sym, Err, TypeV, Atom, Top, Builtin, ModuleV, Func, ClassV, ListV, DictV, Obj, Bound,
                      GenV, Exc, Splice, Raised, Unmodelled, TAG_TYPES, TAG_EXACT, NUMERIC, EXC_BASES, k)
 
-BUILTIN_NAMES = set(['isinstance', 'len', 'abs', 'all', 'any', 'sum', 'min', 'max', 'sorted', 'range', 'zip', 'enumerate',
+BUILTIN_NAMES = set(['globals', 'locals', 'vars', 'isinstance', 'len', 'abs', 'all', 'any', 'sum', 'min', 'max', 'sorted', 'range', 'zip', 'enumerate',
                      'getattr', 'hasattr', 'setattr', 'iter', 'next', 'print', 'round', 'ord', 'chr', 'repr', 'reversed',
                      'map', 'filter', 'divmod', 'pow', 'callable', 'id', 'hash', 'hex', 'bin', 'oct', 'issubclass', 'super',
                      'format'])
@@ -221,6 +221,16 @@ def rich_compare(interp, name, a, b, text='', pure=False):
         return rich_compare(interp, name, a.attrs['<sym>'], b.attrs['<sym>'], text, pure)
     if is_dt_record(a) and is_dt_record(b):
         return dt_record_compare(interp, name, a, b, text)
+    # tuples / lists of known items: lexicographic, item by item (each comparison may be a decision)
+    if isinstance(a, ListV) and isinstance(b, ListV) and a.kind == b.kind and a.kind in ('tuple', 'list') and name in ('lt', 'le', 'gt', 'ge') \
+            and not a.has_splice() and not b.has_splice() and a.items and len(a.items) == len(b.items) \
+            and all(not isinstance(x, (ListV, DictV, Obj)) for x in a.items + b.items):
+        strict = {'lt': 'lt', 'le': 'lt', 'gt': 'gt', 'ge': 'gt'}[name]
+        for x, y in zip(a.items, b.items):
+            same = interp.truth(rich_compare(interp, 'eq', x, y, text, pure), '%r == %r' % (x, y))
+            if not same:
+                return Const(interp.truth(rich_compare(interp, strict, x, y, text, pure), '%r %s %r' % (x, strict, y)))
+        return Const(name in ('le', 'ge'))
     # dunder dispatch on package objects
     if isinstance(a, Obj):
         m = interp.get_method(a, CMP_DUNDER[name])
@@ -1052,6 +1062,18 @@ def call_builtin(interp, name, args, kwargs):
         return Atom(name, args, 'str')
     if name in ('divmod',):
         return ListV([binop(interp, ast.FloorDiv(), args[0], args[1]), binop(interp, ast.Mod(), args[0], args[1])], 'tuple')
+    if name in ('functools.lru_cache', 'functools.cache', 'lru_cache', 'cache', 'functools.cached_property'):
+        # value-wise the memoised function is the function (what a memo does to *outcomes over time* is the purity rules' business)
+        if args and isinstance(args[0], (Func, Bound)):
+            return args[0]
+        interp.extern['hx:identity'] = lambda it, a, kw: a[0]
+        return Builtin('hx:identity')
+    if name in ('functools.wraps', 'wraps', 'functools.update_wrapper'):
+        # copies metadata only: the decorated function itself is what comes back
+        if name == 'functools.update_wrapper':
+            return args[0]
+        interp.extern['hx:identity'] = lambda it, a, kw: a[0]
+        return Builtin('hx:identity')
     if name in ('functools.reduce', 'reduce'):
         fn = args[0]
         items = _drain(interp, args[1])
@@ -1205,6 +1227,8 @@ def call_builtin(interp, name, args, kwargs):
         return Top('os result', ignorance=False)
     if name in ('id', 'hash'):
         return Atom(name, args, 'int')
+    if name in ('globals', 'locals', 'vars') and not args:
+        return DictV([])        # stores into it are bookkeeping of the defining module, not followed
     raise Unmodelled('builtin %s' % name)
 
 
